@@ -26,7 +26,7 @@ OFFS = [(0, 0), (1, 2), (3, 5)]          # (i0, extra rows/cols beyond Dof)
 
 
 def groups(tier):
-    return [G_.so2, G_.so3, G_.se2, G_.c1, G_.B1] if tier == "quick" else [G_.so2, G_.so3, G_.se2, G_.se3, G_.c1, G_.B1, G_.B3]
+    return [G_.so2, G_.so3, G_.se2, G_.se3, G_.c1, G_.B1, G_.B3]
 
 
 def tu(G, s="d"):
